@@ -87,12 +87,14 @@ pub fn iso_case(args: &Args, idx: u64) -> CaseOut {
     let rp = "example.com";
     let mut ids: Vec<Vec<u8>> = Vec::new();
     let mut shadow: Vec<Option<u32>> = Vec::new();
+    let mut keys: Vec<Option<(Vec<u8>, Vec<u8>)>> = Vec::new();
     for (id, start, prf) in &h.creds {
         let hm = if *prf { Some((rng.bytes(32), Some(rng.bytes(32)))) } else { None };
-        let (pk, _, _) = seeded_passkey(&mut rng, rp, id, Some(b"u"), *start, hm);
+        let (pk, x, y) = seeded_passkey(&mut rng, rp, id, Some(b"u"), *start, hm);
         rig.store.insert_raw(pk);
         ids.push(id.clone());
         shadow.push(*start);
+        keys.push(Some((x, y)));
     }
     let case = |step: usize| json!({"index": idx, "step": step, "history": describe(args, idx).case});
     let mut viol = |out: &mut CaseOut, sig: &str, detail: String, step: usize| out.violations.push((sig.to_string(), detail, case(step)));
@@ -114,6 +116,7 @@ pub fn iso_case(args: &Args, idx: u64) -> CaseOut {
             ids.push(new_id);
             shadow.push(want);
             has_prf.push(false);
+            keys.push(None);
             out.counters.push(("registrations".into(), 1));
         }
     }
@@ -127,7 +130,8 @@ pub fn iso_case(args: &Args, idx: u64) -> CaseOut {
         let k = if h.register_first && step % 4 == 3 { ids.len() - 1 } else { *k0 };
         let before = shadow[k];
         rig.log.clear();
-        let ext = (*want_prf && has_prf[k]).then(|| passkey_types::ctap2::get_assertion::ExtensionInputs {
+        // a PRF request is also made of credentials that hold no PRF secret: that assertion is refused
+        let ext = (*want_prf && (has_prf[k] || step % 2 == 0)).then(|| passkey_types::ctap2::get_assertion::ExtensionInputs {
             hmac_secret: None,
             prf: Some(passkey_types::ctap2::extensions::AuthenticatorPrfInputs {
                 eval: Some(passkey_types::ctap2::extensions::AuthenticatorPrfValues { first: [3; 32], second: None }),
@@ -144,6 +148,15 @@ pub fn iso_case(args: &Args, idx: u64) -> CaseOut {
             Ok(resp) => {
                 assertions += 1;
                 let reported = authdata::decode(&resp.auth_data.to_vec()).map(|a| a.counter).unwrap_or(u32::MAX / 3);
+                // the counter a relying party can rely on is the signed one
+                if let Some((x, y)) = &keys[k] {
+                    let mut msg = resp.auth_data.to_vec();
+                    msg.extend_from_slice(&[2u8; 32]);
+                    if let Err(e) = crate::oracle::verify_es256_any(x, y, &msg, &resp.signature) {
+                        viol(&mut out, "the returned authenticator data (with its counter) is not what was signed", e, step);
+                    }
+                    out.counters.push(("signed_counters_verified".into(), 1));
+                }
                 match before {
                     None => {
                         if reported != 0 {
@@ -182,7 +195,11 @@ pub fn iso_case(args: &Args, idx: u64) -> CaseOut {
                 }
             }
             Err(_) => {
-                // an error is not a crash; the store must not hold a smaller counter afterwards
+                // an error is not a crash; the store must not hold a smaller counter afterwards, and a
+                // counter-less credential is not rewritten by a refused assertion either
+                if before.is_none() && (updates != 0 || stored_now.is_some()) {
+                    viol(&mut out, "counter-less credential was rewritten by an assertion", format!("refused assertion: {updates} update call(s), stored counter {stored_now:?}"), step);
+                }
                 if let (Some(c), Some(s)) = (before, stored_now) {
                     if s < c {
                         viol(&mut out, "stored counter became smaller after a failed assertion", format!("previous {c}, stored {s}"), step);
